@@ -22,6 +22,7 @@ WRAPPERS = {
     'Tree::node_indices': ('Iterator::map(self.arena, closure {closure#0}[])', ['$1.0'], 'the keys of the arena, in index order'),
     'Tree::node_iter': ('self.arena', [], 'the (index, node) pairs of the arena, in index order'),
     'Tree::get_root_idx': ('self.root', [], 'the stored root index'),
+    'EdgeReference::edge': ('Edge::Edge{self.source_idx, self.label, self.target_idx}', [], 'copies (source, label, target) of the edge in this order'),
     'Tree::dfs_edge_iter': ('DfsEdge::iter(self, Tree::get_root_idx(self))', [], 'edge traversal from the root'),
     'Tree::len': ('Slab::len(self.arena)', [], 'number of stored nodes'),
     'AffTree::len': ('Tree::len(self.tree)', [], 'delegates to the arena tree'),
@@ -583,6 +584,9 @@ def r9(ctx):
     step = [d for d in defs if d[2] != ('param', 'node_idx')]
     edge = ('call', 'Tree::parent', (('param', 'self'), var))
     def is_edge_field(e, f):
+        # `.edge()` only copies source_idx / label / target_idx out of the edge reference (checked as a wrapper below)
+        if e[0] == 'field' and e[2] == f and is_call(e[1], 'EdgeReference::edge') and len(e[1][2]) == 1:
+            e = ('field', e[1][2][0], f)
         return e[0] == 'field' and e[2] == f and is_call(e[1], 'Tree::parent') and s(e[1]) == s(edge)
     if not (len(init) == 1 and len(step) == 1 and is_edge_field(step[0][2], 'source_idx')):
         problems.append('the walk does not start at node_idx and move to the source of the parent edge')
@@ -639,8 +643,22 @@ def r7(ctx):
                         a = R.call_args(bb)
                         if s(a[1]) == s(v) and any(is_call(y, 'Slab::get', 'Slab::get_mut') and s(y[2][1]) == s(x) for y in walk(a[0])):
                             via_lookup = True
+                # the index is what `find(|&i| !arena.contains(i))` picked out of a list of the indices to be checked: found exactly because
+                # the arena does not contain it
+                via_find = False
+                if is_call(x, 'Iterator::find') and len(x[2]) == 2 and x[2][1][0] == 'closure' and \
+                        any(l[0] == 'is' and l[2] == frozenset(['Some']) and s(l[1]) == s(x) for l in lits):
+                    cb_, cr_ = prune.closure_ret(F, x[2][1])
+                    if cb_ is not None and cr_ and len(cr_) == 1:
+                        r_ = s(cr_[0])
+                        prm_ = ('param', cb_.arg_names()[-1])
+                        caps_ = x[2][1][2]
+                        inner = r_[2] if (r_[0] == 'un' and r_[1] == 'Not') else None
+                        if inner is not None and is_call(inner, 'Slab::contains') and inner[2][1] == prm_ and \
+                                any(isinstance(z, tuple) and z[:1] == ('field',) and z[2] == 'arena' for z in walk(inner[2][0])):
+                            via_find = True
                 site = '%s#invalid-index' % b.qname
-                if guarded or via_lookup:
+                if guarded or via_lookup or via_find:
                     ctx.ok('C13.R7', site, 'index rejected exactly when the arena does not contain it', st['span'])
                 else:
                     ctx.bad('C13.R7', site, 'an index is reported invalid under a test other than arena membership (live nodes can be rejected after deletions / freed ones accepted)', st['span'])
